@@ -60,7 +60,7 @@ def read_styles_xml_element(element):
 
     for style_element in element.find_children("w:style"):
         style = _read_style_element(style_element)
-        element_type = style_element.attributes["w:type"]
+        element_type = style_element.attributes.get("w:type")
         if element_type == "numbering":
             numbering_styles[style.style_id] = _read_numbering_style_element(style_element)
         else:
@@ -80,7 +80,7 @@ Style = collections.namedtuple("Style", ["style_id", "name"])
 
 
 def _read_style_element(element):
-    style_id = element.attributes["w:styleId"]
+    style_id = element.attributes.get("w:styleId")
     name = element.find_child_or_null("w:name").attributes.get("w:val")
     return Style(style_id=style_id, name=name)
 
